@@ -7,7 +7,6 @@ impl DepManager {
     pub uninterp spec fn fin(&self) -> Set<AbsPath>;
     /// representation invariant
     pub uninterp spec fn wf(&self) -> bool;
-    pub uninterp spec fn no_edges(&self) -> bool;
 }
 
 pub open spec fn r_edge(m: Map<AbsPath, HashSet<AbsPath>>, a: AbsPath, b: AbsPath) -> bool {
